@@ -500,6 +500,7 @@ type QueryOpts struct {
 	Boom bool // may select the failing field
 	Res  bool // selects the resource-creating field
 	Slow bool // may select the slow field
+	Cost bool // selects the Expensive field on list elements and on the nullable object
 }
 
 // GenQuery generates a query `{ root(tag: "<tag>") { ... } }` and the cells
@@ -578,6 +579,11 @@ func (g *Gen) GenQuery(tag string, o QueryOpts) (string, []string) {
 		}
 		parts = append(parts, text)
 		cells = append(cells, f.cells...)
+	}
+	if o.Cost {
+		parts = append(parts, "ci: items { id cost }", "cp: pick { id cost }")
+		cells = append(cells, "items", "pick")
+		cells = append(cells, itemCells()...)
 	}
 	if o.Slow && r.Intn(3) == 0 {
 		parts = append(parts, fmt.Sprintf("slow(us: %d)", 50+r.Intn(600)))
